@@ -191,12 +191,31 @@ package router
 //@   ensures upd ==> arrUpd(p.path.Raw, infOff(p.path), ite(p.infoField.ConsDir, 1, 0)|ite(p.infoField.Peer, 2, 0), 0, uint8(p.infoField.SegID>>8), uint8(p.infoField.SegID), uint8(p.infoField.Timestamp>>24), uint8(p.infoField.Timestamp>>16), uint8(p.infoField.Timestamp>>8), uint8(p.infoField.Timestamp))
 //@   ensures !upd ==> arrSame(p.path.Raw)
 
+//@ # the full 16-byte MAC of the hop verified last (EPIC authenticator)
+//@ ghost var lastFullMac map[int]uint8
 //@ func (*scionPacketProcessor).verifyCurrentMAC
-//@   props C01 C04
+//@   props C01 C04 C13
+//@   gset lastFullMac[0] := ite(result == pForward, p.cachedMac[0], old(lastFullMac[0]))
+//@   gset lastFullMac[1] := ite(result == pForward, p.cachedMac[1], old(lastFullMac[1]))
+//@   gset lastFullMac[2] := ite(result == pForward, p.cachedMac[2], old(lastFullMac[2]))
+//@   gset lastFullMac[3] := ite(result == pForward, p.cachedMac[3], old(lastFullMac[3]))
+//@   gset lastFullMac[4] := ite(result == pForward, p.cachedMac[4], old(lastFullMac[4]))
+//@   gset lastFullMac[5] := ite(result == pForward, p.cachedMac[5], old(lastFullMac[5]))
+//@   gset lastFullMac[6] := ite(result == pForward, p.cachedMac[6], old(lastFullMac[6]))
+//@   gset lastFullMac[7] := ite(result == pForward, p.cachedMac[7], old(lastFullMac[7]))
+//@   gset lastFullMac[8] := ite(result == pForward, p.cachedMac[8], old(lastFullMac[8]))
+//@   gset lastFullMac[9] := ite(result == pForward, p.cachedMac[9], old(lastFullMac[9]))
+//@   gset lastFullMac[10] := ite(result == pForward, p.cachedMac[10], old(lastFullMac[10]))
+//@   gset lastFullMac[11] := ite(result == pForward, p.cachedMac[11], old(lastFullMac[11]))
+//@   gset lastFullMac[12] := ite(result == pForward, p.cachedMac[12], old(lastFullMac[12]))
+//@   gset lastFullMac[13] := ite(result == pForward, p.cachedMac[13], old(lastFullMac[13]))
+//@   gset lastFullMac[14] := ite(result == pForward, p.cachedMac[14], old(lastFullMac[14]))
+//@   gset lastFullMac[15] := ite(result == pForward, p.cachedMac[15], old(lastFullMac[15]))
 //@   requires procInv(p)
 //@   modifies p.cachedMac, p.pkt.slowPathRequest, arr(p.macInputBuffer), path.hashSt
 //@   ensures result == pForward || result == pSlowPath
 //@   ensures result == pForward ==> macMatches(p)
+//@   ensures result == pForward ==> sameArray(p.cachedMac, p.macInputBuffer)
 //@   ensures result == pForward ==> len(p.cachedMac) == 16 && p.cachedMac[0] == path.macByte(path.hkey(p.mac), p.infoField.SegID, p.infoField.Timestamp, p.hopField.ExpTime, p.hopField.ConsIngress, p.hopField.ConsEgress, 0) && p.cachedMac[1] == path.macByte(path.hkey(p.mac), p.infoField.SegID, p.infoField.Timestamp, p.hopField.ExpTime, p.hopField.ConsIngress, p.hopField.ConsEgress, 1) && p.cachedMac[2] == path.macByte(path.hkey(p.mac), p.infoField.SegID, p.infoField.Timestamp, p.hopField.ExpTime, p.hopField.ConsIngress, p.hopField.ConsEgress, 2) && p.cachedMac[3] == path.macByte(path.hkey(p.mac), p.infoField.SegID, p.infoField.Timestamp, p.hopField.ExpTime, p.hopField.ConsIngress, p.hopField.ConsEgress, 3) && p.cachedMac[4] == path.macByte(path.hkey(p.mac), p.infoField.SegID, p.infoField.Timestamp, p.hopField.ExpTime, p.hopField.ConsIngress, p.hopField.ConsEgress, 4) && p.cachedMac[5] == path.macByte(path.hkey(p.mac), p.infoField.SegID, p.infoField.Timestamp, p.hopField.ExpTime, p.hopField.ConsIngress, p.hopField.ConsEgress, 5) && p.cachedMac[6] == path.macByte(path.hkey(p.mac), p.infoField.SegID, p.infoField.Timestamp, p.hopField.ExpTime, p.hopField.ConsIngress, p.hopField.ConsEgress, 6) && p.cachedMac[7] == path.macByte(path.hkey(p.mac), p.infoField.SegID, p.infoField.Timestamp, p.hopField.ExpTime, p.hopField.ConsIngress, p.hopField.ConsEgress, 7) && p.cachedMac[8] == path.macByte(path.hkey(p.mac), p.infoField.SegID, p.infoField.Timestamp, p.hopField.ExpTime, p.hopField.ConsIngress, p.hopField.ConsEgress, 8) && p.cachedMac[9] == path.macByte(path.hkey(p.mac), p.infoField.SegID, p.infoField.Timestamp, p.hopField.ExpTime, p.hopField.ConsIngress, p.hopField.ConsEgress, 9) && p.cachedMac[10] == path.macByte(path.hkey(p.mac), p.infoField.SegID, p.infoField.Timestamp, p.hopField.ExpTime, p.hopField.ConsIngress, p.hopField.ConsEgress, 10) && p.cachedMac[11] == path.macByte(path.hkey(p.mac), p.infoField.SegID, p.infoField.Timestamp, p.hopField.ExpTime, p.hopField.ConsIngress, p.hopField.ConsEgress, 11) && p.cachedMac[12] == path.macByte(path.hkey(p.mac), p.infoField.SegID, p.infoField.Timestamp, p.hopField.ExpTime, p.hopField.ConsIngress, p.hopField.ConsEgress, 12) && p.cachedMac[13] == path.macByte(path.hkey(p.mac), p.infoField.SegID, p.infoField.Timestamp, p.hopField.ExpTime, p.hopField.ConsIngress, p.hopField.ConsEgress, 13) && p.cachedMac[14] == path.macByte(path.hkey(p.mac), p.infoField.SegID, p.infoField.Timestamp, p.hopField.ExpTime, p.hopField.ConsIngress, p.hopField.ConsEgress, 14) && p.cachedMac[15] == path.macByte(path.hkey(p.mac), p.infoField.SegID, p.infoField.Timestamp, p.hopField.ExpTime, p.hopField.ConsIngress, p.hopField.ConsEgress, 15)
 //@   ensures result == pSlowPath ==> paramProblem(p, slayers.SCMPCodeInvalidHopFieldMAC, hopPtr(p))
 //@   ensures result == pSlowPath ==> !macMatches(p)
@@ -295,9 +314,10 @@ package router
 //@   ensures result == pForward || result == pSlowPath || result == pDiscard
 //@   ensures result == pSlowPath ==> p.pkt.slowPathRequest.pointer == 0 && ((p.pkt.slowPathRequest.spType == slowPathType(slayers.SCMPTypeDestinationUnreachable) && p.pkt.slowPathRequest.code == slayers.SCMPCodeNoRoute) || (p.pkt.slowPathRequest.spType == 4 && p.pkt.slowPathRequest.code == slayers.SCMPCodeInvalidDestinationAddress))
 
+//@ ghost var lastProcessDisp disposition
 //@ # ---- the fast path: top-level obligations of C01, C04, C05, C06, C15 (from the property statements)
 //@ func (*scionPacketProcessor).process
-//@   props C01 C04 C05 C06 C15
+//@   props C01 C04 C05 C06 C07 C15
 //@   maxpaths 20000
 //@   requires procInv(p) && addrInv(p) && p.pkt.Link != nil && !p.effectiveXover
 //@   let s = p.path
@@ -340,6 +360,13 @@ package router
 //@   let first = k0 == 0
 //@   let last = int(k0) == s.NumHops-1
 //@   let fromInside = p.ingressFromLink == 0
+//@   # frame (C07, fields): what processing one packet may touch
+//@   modifies p.hopField, p.infoField, p.peering, p.effectiveXover, p.cachedMac, p.pkt.slowPathRequest, p.pkt.egress, p.pkt.trafficType, p.pkt.RemoteAddr, p.path.PathMeta, arr(p.path.Raw), arr(p.macInputBuffer), path.hashSt, time.lastNow, expNow, lastIsUp, lastIsUpLink, lastFullMac
+//@   gset lastProcessDisp := result
+//@   ensures result == pForward ==> rawInv(p.path)
+//@   ensures result == pForward ==> len(p.cachedMac) == 16 && p.cachedMac[0] == lastFullMac[0] && p.cachedMac[1] == lastFullMac[1] && p.cachedMac[2] == lastFullMac[2] && p.cachedMac[3] == lastFullMac[3] && p.cachedMac[4] == lastFullMac[4] && p.cachedMac[5] == lastFullMac[5] && p.cachedMac[6] == lastFullMac[6] && p.cachedMac[7] == lastFullMac[7] && p.cachedMac[8] == lastFullMac[8] && p.cachedMac[9] == lastFullMac[9] && p.cachedMac[10] == lastFullMac[10] && p.cachedMac[11] == lastFullMac[11] && p.cachedMac[12] == lastFullMac[12] && p.cachedMac[13] == lastFullMac[13] && p.cachedMac[14] == lastFullMac[14] && p.cachedMac[15] == lastFullMac[15]
+//@   # the first info field's timestamp is never rewritten with a different value
+//@   ensures p.path.Raw[8] == old(p.path.Raw[8]) && p.path.Raw[9] == old(p.path.Raw[9]) && p.path.Raw[10] == old(p.path.Raw[10]) && p.path.Raw[11] == old(p.path.Raw[11])
 //@   # C01 (i): the current hop carries a valid MAC for the accumulator value the documentation prescribes
 //@   ensures result == pForward ==> m00 == path.macByte(key, segChk0, ts0, exp0, in0, eg0, 0) && m01 == path.macByte(key, segChk0, ts0, exp0, in0, eg0, 1) && m02 == path.macByte(key, segChk0, ts0, exp0, in0, eg0, 2) && m03 == path.macByte(key, segChk0, ts0, exp0, in0, eg0, 3) && m04 == path.macByte(key, segChk0, ts0, exp0, in0, eg0, 4) && m05 == path.macByte(key, segChk0, ts0, exp0, in0, eg0, 5)
 //@   # C01 (ii): and has not expired at a clock reading taken during this call
@@ -515,3 +542,29 @@ package router
 //@   ensures result == pForward && !out ==> o.SecondHop.ConsIngress == p.ingressFromLink && o.SecondHop.ConsEgress == 0 && o.SecondHop.ExpTime == fh.ExpTime && !o.SecondHop.IngressRouterAlert && !o.SecondHop.EgressRouterAlert
 //@   ensures result == pForward && !out ==> o.SecondHop.Mac[0] == path.macByte(key, seg0, ts, fh.ExpTime, p.ingressFromLink, 0, 0) && o.SecondHop.Mac[1] == path.macByte(key, seg0, ts, fh.ExpTime, p.ingressFromLink, 0, 1) && o.SecondHop.Mac[2] == path.macByte(key, seg0, ts, fh.ExpTime, p.ingressFromLink, 0, 2) && o.SecondHop.Mac[3] == path.macByte(key, seg0, ts, fh.ExpTime, p.ingressFromLink, 0, 3) && o.SecondHop.Mac[4] == path.macByte(key, seg0, ts, fh.ExpTime, p.ingressFromLink, 0, 4) && o.SecondHop.Mac[5] == path.macByte(key, seg0, ts, fh.ExpTime, p.ingressFromLink, 0, 5)
 //@   ensures result == pForward && !out ==> o.Info.SegID == seg0 && o.FirstHop == fh && o.Info.Timestamp == ts
+
+//@ # ---- C13: EPIC
+//@ import epic "github.com/scionproto/scion/pkg/slayers/path/epic"
+//@ import libepic "github.com/scionproto/scion/pkg/experimental/epic"
+//@ macro epOf(p) = asptr(p.scionLayer.Path, *epic.Path)
+//@ func (*scionPacketProcessor).processEPIC
+//@   props C13
+//@   maxpaths 20000
+//@   requires p.d != nil && p.pkt != nil && p.mac != nil && len(p.macInputBuffer) >= 48 && p.pkt.Link != nil && !p.effectiveXover && addrInv(p)
+//@   requires typeis(p.scionLayer.Path, *epic.Path) ==> epOf(p) != nil
+//@   requires typeis(p.scionLayer.Path, *epic.Path) && epOf(p).ScionPath != nil ==> rawInv(epOf(p).ScionPath) && !sameArray(p.macInputBuffer, epOf(p).ScionPath.Raw) && !sameArray(p.macInputBuffer, p.scionLayer.RawSrcAddr) && !sameArray(p.macInputBuffer, epOf(p).PHVF) && !sameArray(p.macInputBuffer, epOf(p).LHVF)
+//@   let e = epOf(p)
+//@   let sp = epOf(p).ScionPath
+//@   let pen = int(sp.PathMeta.CurrHF) == sp.NumHops-2
+//@   let last = int(sp.PathMeta.CurrHF) == sp.NumHops-1
+//@   let ts0 = uint32(sp.Raw[8])<<24|uint32(sp.Raw[9])<<16|uint32(sp.Raw[10])<<8|uint32(sp.Raw[11])
+//@   let sender = int64(ts0)*1000000000+(int64(e.PktID.Timestamp)+1)*21000
+//@   let hvf = ite(last, e.LHVF, e.PHVF)
+//@   # at every hop the embedded SCION path is processed by process(); nothing is forwarded that process() rejected
+//@   ensures result == pForward ==> typeis(p.scionLayer.Path, *epic.Path) && sp != nil && lastProcessDisp == pForward
+//@   ensures result != pForward && typeis(p.scionLayer.Path, *epic.Path) && sp != nil && lastProcessDisp != pForward ==> result == lastProcessDisp
+//@   # at other hops exactly like the embedded path
+//@   ensures typeis(p.scionLayer.Path, *epic.Path) && sp != nil && !pen && !last ==> result == lastProcessDisp
+//@   # penultimate / last hop: fresh timestamp and valid hop validation field, keyed by the full MAC of the hop verified last
+//@   ensures result == pForward && (pen || last) ==> sender <= time.lastNow+1000000000 && time.lastNow <= sender+3000000000
+//@   ensures result == pForward && (pen || last) ==> len(hvf) == 4 && hvf[0] == libepic.epicMac(lastFullMac[0], lastFullMac[1], lastFullMac[2], lastFullMac[3], lastFullMac[4], lastFullMac[5], lastFullMac[6], lastFullMac[7], lastFullMac[8], lastFullMac[9], lastFullMac[10], lastFullMac[11], lastFullMac[12], lastFullMac[13], lastFullMac[14], lastFullMac[15], e.PktID.Timestamp, e.PktID.Counter, uint64(p.scionLayer.SrcIA), uint8(p.scionLayer.SrcAddrType), p.scionLayer.RawSrcAddr, p.scionLayer.PayloadLen, ts0, 0) && hvf[1] == libepic.epicMac(lastFullMac[0], lastFullMac[1], lastFullMac[2], lastFullMac[3], lastFullMac[4], lastFullMac[5], lastFullMac[6], lastFullMac[7], lastFullMac[8], lastFullMac[9], lastFullMac[10], lastFullMac[11], lastFullMac[12], lastFullMac[13], lastFullMac[14], lastFullMac[15], e.PktID.Timestamp, e.PktID.Counter, uint64(p.scionLayer.SrcIA), uint8(p.scionLayer.SrcAddrType), p.scionLayer.RawSrcAddr, p.scionLayer.PayloadLen, ts0, 1) && hvf[2] == libepic.epicMac(lastFullMac[0], lastFullMac[1], lastFullMac[2], lastFullMac[3], lastFullMac[4], lastFullMac[5], lastFullMac[6], lastFullMac[7], lastFullMac[8], lastFullMac[9], lastFullMac[10], lastFullMac[11], lastFullMac[12], lastFullMac[13], lastFullMac[14], lastFullMac[15], e.PktID.Timestamp, e.PktID.Counter, uint64(p.scionLayer.SrcIA), uint8(p.scionLayer.SrcAddrType), p.scionLayer.RawSrcAddr, p.scionLayer.PayloadLen, ts0, 2) && hvf[3] == libepic.epicMac(lastFullMac[0], lastFullMac[1], lastFullMac[2], lastFullMac[3], lastFullMac[4], lastFullMac[5], lastFullMac[6], lastFullMac[7], lastFullMac[8], lastFullMac[9], lastFullMac[10], lastFullMac[11], lastFullMac[12], lastFullMac[13], lastFullMac[14], lastFullMac[15], e.PktID.Timestamp, e.PktID.Counter, uint64(p.scionLayer.SrcIA), uint8(p.scionLayer.SrcAddrType), p.scionLayer.RawSrcAddr, p.scionLayer.PayloadLen, ts0, 3)
